@@ -1,3 +1,4 @@
+mod capi;
 mod checks;
 mod dd;
 mod hist;
